@@ -55,7 +55,8 @@ func c05Inputs() []inputs.Input {
 		I("png", 64, 0, 0), I("gif", 10, 0, 0), I("pdf", 100, 0, 0), I("zip", 50, 0, 0),
 		I("docx", 100, 100, 0), I("docx", 100, 4000, 0), I("ole", 600, 0, 0), I("elf", 32, 0, 0),
 		I("gzip", 20, 0, 0), I("random", 5000, 0, 0), I("random", 7, 0, 0),
-		I("shebang", 10, 0, 0), I("svg", 40, 0, 0),
+		I("shebang", 10, 0, 0), I("svg", 40, 0, 0), I("utf8", 200, 1, 3), I("utf8", 3100, 0, 1),
+		I("csv_ragged", 4, 3, 2), I("json_trunc", 3072, 3000, 0),
 	}
 }
 
